@@ -67,3 +67,15 @@ harness(
         "link is followed); 'islink' tells whether the path itself is a link; nothing is modified.  (A lemma over the real body: "
         "callers use the ghost-state contract of the same function in store_check.py, which this lemma does not replace.)",
 )
+
+
+# ---------------- pure path functions of os.path used next to the stat helper ----------------
+def _upath(name, *sorts):
+    return specfn.ufn("os_path_" + name, *sorts)
+
+
+contract("ext:os.path.realpath", params=dict(path=TStr), returns=TStr,
+         ensures=lambda c: c.result == SV(_upath("realpath", z3.StringSort(), z3.StringSort())(c.path.t), TStr), assumed=True,
+         doc="os.path.realpath(path): reads the file system (resolves symbolic links), no effect; the result need not equal the path")
+contract("ext:os.path.isabs", params=dict(s=TStr), returns=TBool,
+         ensures=lambda c: c.result == SV(z3.PrefixOf(z3.StringVal("/"), c.s.t), TBool), assumed=True, doc="os.path.isabs on POSIX: starts with '/'")
